@@ -13,7 +13,9 @@ META = {
             "ValidateParameters, validatePaging and ServeHTTP (stub handlers) against the model. The handlers themselves are SEARCHED "
             "(fuzzing, not proof): the server's real route table (setupServerRouter, OAuth2 AS enabled, file user/DSN stores, SQLite "
             "data sources) is driven route by route with generated hostile paths, queries, headers and bodies as admin, user, bad "
-            "credentials and anonymous through Router.ServeHTTP; the model-free oracle is that the last-resort recovery "
+            "credentials and anonymous through Router.ServeHTTP, and authenticated routes receive a systematic list of structurally "
+            "hostile credentials (bearer tokens = hex of each ciphertext magic followed by every payload length, damaged issued tokens, "
+            "non-hex / odd-length / empty / very long tokens, malformed Basic credentials); the model-free oracle is that the last-resort recovery "
             "(reportRequestPanic) never runs.",
     "note": "The unpatched tree violates the property in seven places (one witness each in the header of fixes/C40.patch): "
             "InsertAbstractRows (row shorter than the column list on a row-id data source), insertRowSet (null row), BeginHandler "
@@ -27,7 +29,8 @@ META = {
             "Session.Authenticate, permission look-ups, body reading and body validation enter as arbitrary inputs; "
             "negotiateLanguage, AcceptsGzip, logging and ErrorResponse are not modelled (searched only). Search limits: the shutdown "
             "routes are never driven with root credentials (success ends the process); bearer-token and logon requests are thinned "
-            "(each costs an argon2id key derivation); a panic in a goroutine a handler starts is outside ServeHTTP's recovery and "
+            "(each costs an argon2id key derivation; in the quick tier the v3 magic with a complete salt is sent only at the lengths "
+            "around the salt / nonce / tag boundaries, every length in the thorough tier); a panic in a goroutine a handler starts is outside ServeHTTP's recovery and "
             "shows as a harness crash (reported as broken).",
     "technique": "Lean 4 proof (induction over segment / candidate / query lists, Except-Panic semantics of Go's partial operations) "
                  "+ model/implementation correspondence + fuzz search with a model-free oracle on the real route table",
@@ -81,6 +84,8 @@ def run(ctx):
     if not ctx.replay_in:
         if cf.get("routes", 0) < 60:
             ctx.broken.append("fuzz harness saw only %d routes" % cf.get("routes", 0))
+        if cf.get("hostile-credentials", 0) < 400:
+            ctx.broken.append("fuzz harness sent only %d structurally hostile credentials" % cf.get("hostile-credentials", 0))
         if cf.get("handler-ran", 0) < 300:
             ctx.broken.append("fuzz harness reached a handler only %d times" % cf.get("handler-ran", 0))
     ops = {}
@@ -102,6 +107,8 @@ def run(ctx):
         "fuzz_handler_ran": cf.get("handler-ran", 0),
         "fuzz_routes": cf.get("routes", 0),
         "fuzz_routes_answered_below_400": cf.get("routes_answered_ok", 0),
+        "fuzz_hostile_credentials": cf.get("hostile-credentials", 0),
+        "fuzz_hostile_credentials_deriving_a_key": cf.get("credentials-deriving-a-key", 0),
         "fuzz_panics": cf.get("panics", 0),
         "fuzz_rejected_by_net_http": cf.get("rejected-by-net/http", 0),
         "routes_without_success": [r["route"] for r in routes if not r.get("ok")][:60],
